@@ -9,7 +9,7 @@ META = {
     "engine": "mtest", "level": "exploration", "design_ref": "DESIGN.md §4.6 C48",
     "technique": "random mtest problems (mixed strain/stress/free control, LPI tables and formulas, wild time grids, 6 hypotheses, elastic/Norton/plasticity behaviours generated from the reference .mfront files, scripted step refusals forcing sub-stepping) run by the real mtest binary; the result file is judged against evolutions re-evaluated in python and against the requested times bit for bit",
     "text": "Each generated problem is run by the freshly built mtest in its own directory with @OutputFilePrecision 17. For every run that completes, every output row after the initial one is compared with the generator's own evaluation of each imposed evolution at the requested time (imposed strains within @StrainEpsilon, imposed stresses within @StressEpsilon, an echoed external state variable given as an LPI table within 4 ulp, tables deliberately narrower than the time range so that the constant branches are exercised), and the list of output times must be the requested list, each value bit-identical, also when the behaviour refused steps (time step above a random threshold or refusal of chosen integration calls) so that MTest sub-stepped. Runs mtest reports as failed (non convergence, maximum number of sub-steps) are counted and excluded.",
-    "note": "Trusted: python's libm-based re-evaluation of the formula family (sin, cos, exp, sqrt, powers; 4e-15 relative slack), strtod/repr round trip of decimal doubles. The initial row (t0) is the user-given initial state, not a solved step, and is only checked for its time. Uncontrolled components are not judged (the property is about imposed ones).",
+    "note": "Trusted: python's libm-based re-evaluation of the formula family (sin, cos, exp, sqrt, powers; 4e-15 relative slack), strtod/repr round trip of decimal doubles. The tolerances are the documented ones (@StrainEpsilon/@StressEpsilon are the solver's own stopping criteria, so err/tol legitimately approaches 1) plus the variation of the evolution over 4 ulp of the time. The initial row (t0) is the user-given initial state, not a solved step, and is only checked for its time. Uncontrolled components are not judged (the property is about imposed ones).",
 }
 
 NEEDED = ["Elasticity", "Norton", "Plasticity", "ImplicitNorton", "VfNorton", "VfImplicitNorton", "VfPlasticity", "VfEcho"]
@@ -73,6 +73,19 @@ def failure_reason(out):
     return s[:90]
 
 
+def time_slack(ev, t, nulp=4):
+    """the solver reaches te as ti + (te - ti) (and by sums of sub-steps), i.e. within a few ulp of the
+    requested time (4 + one per accepted sub-step): an evolution with a steep slope may legitimately differ
+    by its variation over that distance"""
+    tp, tm = t, t
+    for _ in range(nulp):
+        tp, tm = math.nextafter(tp, math.inf), math.nextafter(tm, -math.inf)
+    try:
+        return max(abs(ev(tp) - ev(t)), abs(ev(t) - ev(tm)))
+    except (ValueError, OverflowError):
+        return 0.0
+
+
 def judge(case, res, att=None, doctor=None):
     """-> list of (key, what) and stats; `doctor` (tests of the monitor itself) may alter the parsed result"""
     viol, stats = [], {"rows": 0, "cmp": 0, "max_ratio": 0.0, "lpi_zones": {}, "loop": None}
@@ -90,8 +103,11 @@ def judge(case, res, att=None, doctor=None):
             viol.append(("times:%s:%s" % (cls, st), "output time of row %d is %r, requested %r (raw token %s)" % (k, a, b, res.raw[k][0])))
             return viol, stats
     # the solver's own time loop, followed through the attempts of the log
+    nulp = [4] * len(req)
     if att is not None:
         loop, consistent = M.replay_time_loop(req, att)
+        if consistent:
+            nulp = [4] + [4 + len(iv["accepted"]) for iv in loop]
         stats["loop"] = "followed" if consistent else "log-not-followed"
         if consistent:
             for iv in loop:
@@ -119,7 +135,8 @@ def judge(case, res, att=None, doctor=None):
         for k in range(1, len(req)):
             ref = ev(req[k])
             v = res.rows[k][c]
-            tol = eps + 4e-15 * abs(ref) + 5e-324
+            # (1e-13 x increment: the loop also stops within 100 eps (te - ti) of te)
+            tol = eps + 4e-15 * abs(ref) + time_slack(ev, req[k], nulp[k]) + 1e-13 * abs(ref - ev(req[k - 1])) + 5e-324
             err = abs(v - ref)
             stats["cmp"] += 1
             ratio = err / tol if math.isfinite(err) else math.inf
@@ -141,7 +158,7 @@ def judge(case, res, att=None, doctor=None):
             ref = ev(t)
             v = res.rows[k][c]
             stats["cmp"] += 1
-            tol = 8 * M.ulp(scale)
+            tol = 8 * M.ulp(scale) + time_slack(ev, t, nulp[k]) + 1e-13 * abs(ref - ev(req[k - 1]))
             if not (abs(v - ref) <= tol):
                 viol.append(("LPI:%s:echo" % zone, "echoed LPI evolution %s at t=%r is %r, expected %r (zone %s)" % (ev.text, t, v, ref, zone)))
                 break
